@@ -5,6 +5,7 @@ import CV.Proto
 import CV.Exec
 import CV.Branch
 import CV.AsmSel
+import CV.Inline
 namespace CV
 
 structure LoadedProg where
@@ -161,6 +162,12 @@ def handle (st : DState) (line : String) : DState × String :=
        | .err => (st, "err")
        | .panic => (st, "panic"))
     | _, _, _, _, _, _ => (st, "badreq")
+  -- inline <n> <callee tokens> / <caller tokens>
+  | "inline" :: n :: rest =>
+    let (calleeT, callerT) := (rest.takeWhile (· != "/"), (rest.dropWhile (· != "/")).drop 1)
+    match n.toNat?, codeOfTokens calleeT, codeOfTokens callerT with
+    | some n, some callee, some caller => (st, "ok 0 " ++ tokensOfCode (appendCode caller callee n))
+    | _, _, _ => (st, "badreq")
   -- branch <line tokens>
   | "branch" :: toks =>
     match codeOfTokens toks with
